@@ -2,11 +2,167 @@
 #![allow(dead_code, unused_imports)]
 use super::*;
 use crate::vk;
-use crate::vk_cover;
+use crate::{vk_cover, vk_proof_models};
 
 /// An interned string backed by a static: identity is the pointer, as in okane. Used by the
 /// book-keeping / price / query harnesses so that no arena allocation and no string comparison
 /// is needed to obtain accounts and commodities (DESIGN 2.2: bumpalo + interning dominate otherwise).
 pub(crate) fn interned(s: &'static str) -> InternedStr<'static> {
     InternedStr(s)
+}
+
+
+// ---------------------------------------------------------------------------------------------
+// C12-H1: InternStore operation sequences against a reference alias table.
+// ---------------------------------------------------------------------------------------------
+#[derive(Clone, Copy, PartialEq, Eq)]
+struct TestT<'a>(InternedStr<'a>);
+
+impl<'a> FromInterned<'a> for TestT<'a> {
+    fn from_interned(v: InternedStr<'a>) -> Self {
+        TestT(v)
+    }
+    fn as_interned(&self) -> InternedStr<'a> {
+        self.0
+    }
+}
+
+fn name(i: u8) -> &'static str {
+    match i {
+        0 => "a",
+        1 => "b",
+        _ => "c",
+    }
+}
+
+/// which pool name an interned value spells (by content: 1-byte names)
+fn spelled(t: TestT<'_>) -> u8 {
+    t.0.as_str().as_bytes()[0] - b'a'
+}
+
+#[derive(Clone, Copy, PartialEq, Eq)]
+enum St {
+    Unreg,
+    Canon,
+    Alias(u8),
+}
+
+fn check_sequence<const STEPS: usize>() -> (bool, bool, bool) {
+    let arena: &'static Bump = Box::leak(Box::new(Bump::new()));
+    let mut store: InternStore<'static, TestT<'static>> = InternStore::new(arena);
+    let mut st = [St::Unreg; 3];
+    // canonical values handed out so far, by name
+    let mut canon: [Option<TestT<'static>>; 3] = [None; 3];
+    let mut saw_alias_resolution = false;
+    let mut saw_conflict_a = false;
+    let mut saw_conflict_c = false;
+    let mut step = 0;
+    while step < STEPS {
+        let op = vk::below(4);
+        let n = vk::below(3);
+        let c = vk::below(3);
+        vk::note(&|| format!("step {}: op {} name {:?} canonical-arg {:?}", step, ["ensure", "insert_canonical", "insert_alias", "resolve"][op as usize], name(n), name(c)));
+        let ni = n as usize;
+        match op {
+            0 => {
+                let got = store.ensure(name(n));
+                let want = match st[ni] {
+                    St::Alias(j) => j,
+                    _ => n,
+                };
+                assert!(spelled(got) == want, "C12: ensure does not return the canonical name");
+                if let St::Alias(_) = st[ni] {
+                    saw_alias_resolution = true;
+                }
+                if st[ni] == St::Unreg {
+                    st[ni] = St::Canon;
+                }
+                match canon[want as usize] {
+                    Some(prev) => assert!(prev == got, "C12: the same canonical name is interned twice (balances would split)"),
+                    None => canon[want as usize] = Some(got),
+                }
+            }
+            1 => {
+                let got = store.insert_canonical(name(n));
+                match st[ni] {
+                    St::Alias(_) => {
+                        assert!(got == Err(InternError::AlreadyAlias), "C12: declaring an alias name as canonical is not rejected");
+                        saw_conflict_a = true;
+                    }
+                    _ => {
+                        let t = match got {
+                            Ok(t) => t,
+                            Err(_) => panic!("C12: canonical declaration of a free or canonical name rejected"),
+                        };
+                        assert!(spelled(t) == n, "C12: insert_canonical returns a different name");
+                        st[ni] = St::Canon;
+                        match canon[ni] {
+                            Some(prev) => assert!(prev == t, "C12: the same canonical name is interned twice (balances would split)"),
+                            None => canon[ni] = Some(t),
+                        }
+                    }
+                }
+            }
+            2 => {
+                // alias declarations always point at a canonical value obtained earlier
+                let target = match canon[c as usize] {
+                    Some(t) => t,
+                    None => {
+                        vk::assume(false);
+                        unreachable!()
+                    }
+                };
+                vk::assume(c != n);
+                let got = store.insert_alias(name(n), target);
+                match st[ni] {
+                    St::Canon => {
+                        assert!(got == Err(InternError::AlreadyCanonical), "C12: declaring a canonical name as an alias is not rejected");
+                        saw_conflict_c = true;
+                    }
+                    St::Alias(_) => assert!(got == Ok(()), "C12: re-declaring an alias fails"),
+                    St::Unreg => {
+                        assert!(got == Ok(()), "C12: alias declaration of a free name fails");
+                        st[ni] = St::Alias(c);
+                    }
+                }
+            }
+            _ => {
+                let got = store.resolve(name(n));
+                match st[ni] {
+                    St::Unreg => assert!(got.is_none(), "C12: resolve finds a name that was never registered"),
+                    St::Canon => assert!(got.map(spelled) == Some(n), "C12: resolve of a canonical name is not itself"),
+                    St::Alias(j) => {
+                        assert!(got.map(spelled) == Some(j), "C12: an alias does not resolve to its canonical name");
+                        assert!(got == canon[j as usize], "C12: alias and canonical name give different interned values (balances would split)");
+                        saw_alias_resolution = true;
+                    }
+                }
+            }
+        }
+        step += 1;
+    }
+    core::mem::forget(store);
+    (saw_alias_resolution, saw_conflict_a, saw_conflict_c)
+}
+
+vk_proof_models! { unwind 6; fn c12_intern_sequence_3() {
+    let o = check_sequence::<3>();
+    vk_cover!(o.0, "an alias resolved to its canonical");
+    vk_cover!(o.2, "canonical-as-alias conflict rejected");
+} }
+
+vk_proof_models! { unwind 6; fn c12_intern_sequence_4() {
+    let o = check_sequence::<4>();
+    vk_cover!(o.0, "an alias resolved to its canonical");
+    vk_cover!(o.1, "alias-as-canonical conflict rejected");
+    vk_cover!(o.2, "canonical-as-alias conflict rejected");
+} }
+
+#[cfg(all(test, not(kani)))]
+#[test]
+fn verif_replay_entry() {
+    crate::vk::replay_dispatch(&[
+        ("c12_intern_sequence_3", c12_intern_sequence_3 as fn()),
+        ("c12_intern_sequence_4", c12_intern_sequence_4 as fn()),
+    ]);
 }
